@@ -1,11 +1,12 @@
 """C17 - traffic counters tell the truth."""
-from gen import common, framing
+from gen import common, framing, ux
 from gen.props.C01 import replay
 
 LEAN_MODULE = "XcmModel.Props.C17"
 THEOREMS = [
     "XcmModel.C17.C17_monotone", "XcmModel.C17.rcnt_run", "XcmModel.C17.C17_counters_exact",
     "XcmModel.C17.C17_order", "XcmModel.C17.C17_refused_counts_nothing", "XcmModel.C17.C17_idle_agreement",
+    "XcmModel.C17.C17_ux_monotone", "XcmModel.C17.C17_ux_refused_counts_nothing", "XcmModel.C17.C17_ux_truncated_counts_delivered", "XcmModel.C17.C17_ux_counters_exact",
 ]
 
 
@@ -32,4 +33,6 @@ def run(ctx):
                 ctx.sample({"harness": "unit_framing_tcp", "ops": ops[:8], "model_out": m[:8]})
             if ctx.over_budget():
                 break
-    ctx.assumptions += ["counters of ux/uxf, btcp/btls and the utls delegation are not inside this unit check yet"]
+    ctx.assumptions += ["byte counters of btcp are checked under C02; btls and the utls delegation are not inside this unit check yet"]
+    ux.run_part(ctx, 40 if quick else 2000, "c17")
+    ctx.rule += "; unit_ux: the eight counters of the real xcm_tp_ux.c after every scripted send/receive (truncating capacities included) vs the Lean Ux model + monitor"
